@@ -13,6 +13,9 @@
 //	     | "fg"        Put(dst, a forged session whose identifier no server ever issued, carrying the
 //	                   (public) certificates of the server this connection reaches)
 //	     | "fn"        the same without any recorded certificates
+//	     | "fg"<n> | "fn"<n>   the same with an identifier of n bytes, n = 1..32 (session_id is opaque
+//	                   SessionID<0..32>: a session another implementation or node issued at that address,
+//	                   a truncated or made-up value); "fg" / "fn" = 32 bytes, the length this server issues
 //	     | "st"<d>     Put(dst, copy of the session the client holds for destination d, unless wiped) (stale id)
 //	     | "sl"        the server's cache is lost (replaced by an empty one)
 //	suites = hex ids joined by "."   (Config.CipherSuites)
@@ -329,6 +332,7 @@ type Runner[S comparable] struct {
 	mss    map[string]string
 	fins   map[string]bool
 	junk   int
+	forged int // number of forged identifiers shorter than 32 bytes made so far
 	Outs   []Out
 	NoCtl  bool // skip the cache-less control handshake
 	// OnHS (optional, C11) is called after every real handshake of the history
@@ -378,6 +382,8 @@ func why(e error) string {
 		{"unexpected message", "unexpected-message"},
 		{"unexpected_message", "unexpected-message"},
 		{"internal error", "alert-internal-error"},
+		{"illegal parameter", "alert-illegal-parameter"},
+		{"illegal_parameter", "alert-illegal-parameter"},
 		{"timeout", "timeout"},
 		{"closed", "closed"},
 		{"EOF", "eof"},
@@ -405,10 +411,26 @@ func (r *Runner[S]) Step(i int, c Conn) Out {
 				r.junk++
 				r.Client.Put(fmt.Sprintf("junk%d", r.junk), r.ops.Make(r.rnd.Bytes(32), suite0, r.rnd.Bytes(48)))
 			}
-		case a == "fg":
-			r.Client.Put(dst, r.ops.MakePeer(r.rnd.Bytes(32), suite0, r.rnd.Bytes(48), c.Server))
-		case a == "fn":
-			r.Client.Put(dst, r.ops.Make(r.rnd.Bytes(32), suite0, r.rnd.Bytes(48)))
+		case strings.HasPrefix(a, "fg") || strings.HasPrefix(a, "fn"):
+			n := 32
+			if len(a) > 2 {
+				var err error
+				if n, err = strconv.Atoi(a[2:]); err != nil || n < 1 || n > 32 {
+					panic("bad forged identifier length in pre-action " + a)
+				}
+			}
+			id := r.rnd.Bytes(n)
+			if n < 32 {
+				// short identifiers of one history must not collide by chance (a 1-byte identifier
+				// has 256 values): the high nibble of the first byte counts the forgeries of this runner
+				id[0] = byte(r.forged<<4) | id[0]&0x0f
+				r.forged++
+			}
+			if a[1] == 'g' {
+				r.Client.Put(dst, r.ops.MakePeer(id, suite0, r.rnd.Bytes(48), c.Server))
+			} else {
+				r.Client.Put(dst, r.ops.Make(id, suite0, r.rnd.Bytes(48)))
+			}
 		case strings.HasPrefix(a, "st"):
 			d, _ := strconv.Atoi(a[2:])
 			var zero S
